@@ -70,7 +70,31 @@ def project_system(system: Any) -> Dict[str, Any]:
     from pydoctor import model
 
     objs = []
+    # the System holds two registries: allobjects (by full name) and the contents tree below rootobjects.  They can
+    # disagree (C02 / C07 subject): the projection takes the union and records where each object is registered.
+    everything = []
+    seen = set()
     for key, o in system.allobjects.items():
+        if id(o) not in seen:
+            seen.add(id(o))
+            everything.append((key, o))
+
+    walked = set()
+
+    def walk(o: Any) -> None:
+        if id(o) in walked:
+            return
+        walked.add(id(o))
+        if id(o) not in seen:
+            seen.add(id(o))
+            everything.append((o.fullName(), o))
+        for c in o.contents.values():
+            walk(c)
+    for r in system.rootobjects:
+        walk(r)
+    collisions = 0
+    taken: Dict[str, Any] = {}
+    for key, o in everything:
         par = o.parent
         u = urlsplit(o.url)
         cls = "Package" if isinstance(o, model.Package) else "Module" if isinstance(o, model.Module) else \
@@ -83,6 +107,7 @@ def project_system(system: Any) -> Dict[str, Any]:
             "file": file_id(unquote(u.path)), "frag": unquote(u.fragment),
             "incontents": (par.contents.get(o.name) is o) if par is not None else (o in system.rootobjects),
             "qid": quote(o.fullName()),
+            "inall": system.allobjects.get(o.fullName()) is o,
             "doc": any(s.docstring is not None for s in o.docsources()),
             "docsrc": next((s.fullName() for s in o.docsources() if s.docstring is not None), o.fullName()),
             "initial": o.name[0].upper(), "dupname": " " in o.name, "dupfull": " " in o.fullName(),
@@ -93,8 +118,15 @@ def project_system(system: Any) -> Dict[str, Any]:
             rec["rawbases"] = list(o.bases)
             rec["mro"] = [c.fullName() for c in o.mro()]
             rec["subclasses"] = [c.fullName() for c in o.subclasses]
+        prev = taken.get(rec["id"])
+        if prev is not None:                              # two objects claim one full name: keep the rendered one
+            collisions += 1
+            if prev["incontents"] or not rec["incontents"]:
+                continue
+            objs.remove(prev)
+        taken[rec["id"]] = rec
         objs.append(rec)
-    return {"objs": objs, "roots": [o.fullName() for o in system.rootobjects],
+    return {"objs": objs, "name_collisions": collisions, "roots": [o.fullName() for o in system.rootobjects],
             "sidebardepth": int(system.options.sidebarexpanddepth), "nosidebar": bool(system.options.nosidebar)}
 
 
@@ -140,9 +172,9 @@ def _producer(a: Any, page: str, anc: List[Any], indexpage: bool = False) -> str
     if inside("nav", "sidebar"):                      # (inside the main navbar in the readthedocs theme)
         if inside(cls="thingTitle"):
             return "sidebarTitle"
-        if inside(cls="itemName"):
+        if inside(cls="itemName") and "internal-link" in _classes(a):
             return "sidebarItem"
-        return "sidebarToc"
+        return "sidebarToc"                               # the docstring's table of contents (docutils references)
     if inside("footer") or inside(cls="navlinks") or inside(cls="navbar-header") or inside(cls="mainnavbar") \
             or inside(id_="search-results-container"):
         return "nav"
